@@ -9,3 +9,4 @@ for id in "$@"; do
   echo "$(date +%H:%M) check $id vs seed $NAME: $verdict :: $(echo "$res" | tr '\n' ' ' | cut -c1-400)" >> $OUT
 done
 rm -rf replays
+git -C /verif checkout -- evidence 2>/dev/null   # evidence is only ever committed from runs on the unchanged tree
